@@ -116,7 +116,15 @@ static Outcome solve(const MatrixXd &M, const Cfg &c) {
 
 // ------------------------------------------------------------------ matrices
 // element-wise coupling (in units of the diagonal gap) of the late_root family, see the rule in c09.py
-static const double LATE_SIGMA_MIN = 1e-3, LATE_SIGMA_MAX = 1e-1;
+static double LATE_SIGMA_MIN = 1e-3, LATE_SIGMA_MAX = 1e-1;
+// ABSOLUTE element-wise coupling of the (p,q) pair to the rest. Restricted to >= 10 x the loosest tolerance (1e-3):
+// in the soak on the unchanged solver every failure (151 of 16000 solves, all at 'loose') had a pair coupling
+// <= 1.6e-3, i.e. below ~2 tol, where the family degenerates into the known (approximately) decoupled-block weakness.
+static double LATE_PAIR_MIN = 1e-2, LATE_PAIR_MAX = 1e-1;
+static double LATE_PAIR_LOW_SHARE = 0.7;  // share of pairs with a coupling in [min, 3 min]
+static double LATE_TIGHT_SHARE = 0.85;    // share of solves with a tight search-space limit
+static double LATE_LOOSE_SHARE = 0.7;     // share of solves at tolerance 'loose'
+static long LATE_SOLVES_PER_MATRIX = 6;
 struct Mat {
   std::string family;
   uint64_t gen_seed;  // the matrix is a pure function of (family parameters, gen_seed): replayable
@@ -212,7 +220,7 @@ static Mat gen_symm_seeded(uint64_t gen_seed, long n, int fam) {
       // ordinary increasing diagonal + weak dense coupling; two EQUAL large diagonal entries D far down the diagonal
       // with a strong mutual element c, so that D-|c| lies between the lowest eigenvalues; the pair is coupled weakly
       // (not zero) to the rest. The unit-vector guess (smallest diagonal entries) does not contain that root.
-      double g = r.logu(0.3, 1.5), sigma = r.logu(LATE_SIGMA_MIN, LATE_SIGMA_MAX), sigpq = r.logu(LATE_SIGMA_MIN, LATE_SIGMA_MAX);
+      double g = r.logu(0.3, 1.5), sigma = r.logu(LATE_SIGMA_MIN, LATE_SIGMA_MAX), sigpq = r.coin(LATE_PAIR_LOW_SHARE) ? r.logu(LATE_PAIR_MIN, 3 * LATE_PAIR_MIN) : r.logu(3 * LATE_PAIR_MIN, LATE_PAIR_MAX);
       VectorXd d(n);
       for (long i = 0; i < n; ++i) d[i] = 1.0 + g * ((double)i + 0.4 * r.uni());
       m.M = MatrixXd::Zero(n, n);
@@ -227,13 +235,13 @@ static Mat gen_symm_seeded(uint64_t gen_seed, long n, int fam) {
       m.M.diagonal() = d;
       for (long k = 0; k < n; ++k)
         if (k != pp && k != qq) {
-          m.M(pp, k) = m.M(k, pp) = r.normal() * sigpq * g;
-          m.M(qq, k) = m.M(k, qq) = r.normal() * sigpq * g;
+          m.M(pp, k) = m.M(k, pp) = r.normal() * sigpq;
+          m.M(qq, k) = m.M(k, qq) = r.normal() * sigpq;
         }
       m.M(pp, pp) = m.M(qq, qq) = D;
       m.M(pp, qq) = m.M(qq, pp) = c;
       m.family = "late_root";
-      p.d("gap", g).d("sigma", sigma).d("sigma_pair", sigpq).i("p", pp).i("q", qq).i("slot", slot).d("D", D).d("c", c).d("target", t);
+      p.d("gap", g).d("sigma_in_units_of_gap", sigma).d("sigma_pair_absolute", sigpq).i("p", pp).i("q", qq).i("slot", slot).d("D", D).d("c", c).d("target", t);
       break;
     }
     default: {  // prescribed spectrum Q Lambda Q^T
@@ -501,12 +509,12 @@ static Cfg gen_cfg_late(vfh::Rng &r, long n) {
   Cfg c;
   c.corr = CORR[r.range(0, 1)];
   c.upd = UPD[r.range(0, 2)];
-  int tc = (int)r.range(0, 9);
-  c.tol = tc <= 4 ? "loose" : tc <= 7 ? "normal" : tc == 8 ? "strict" : "lapack";
+  double tc = r.uni();
+  c.tol = tc < LATE_LOOSE_SHARE ? "loose" : tc < LATE_LOOSE_SHARE + 0.6 * (1 - LATE_LOOSE_SHARE) ? "normal" : tc < LATE_LOOSE_SHARE + 0.8 * (1 - LATE_LOOSE_SHARE) ? "strict" : "lapack";
   c.tolv = tol_value(c.tol);
   c.neigen = r.range(4, 8);
   long upd = c.upd == "min" ? c.neigen : c.upd == "max" ? 2 * c.neigen : (long)(1.5 * (double)c.neigen);
-  if (r.coin(0.5)) c.max_space = 0;
+  if (!r.coin(LATE_TIGHT_SHARE)) c.max_space = 0;
   else c.max_space = r.range(c.neigen, 2 * c.neigen + upd + 2);
   c.iter_max = r.coin(0.85) ? 50 : 200;
   c.matfree = r.coin(0.3);
@@ -555,7 +563,7 @@ static void run_random(vfh::Reporter &R, long seed, long shard, long nsolves, bo
       int fam = fc < 6 ? 0 : fc < 9 ? 1 : fc < 12 ? 2 : fc < 15 ? 3 : fc < 18 ? 4 : 5;
       m = gen_symm(rm, n, fam);
     }
-    long nsol = late ? 6 : large ? 3 : 4;
+    long nsol = late ? LATE_SOLVES_PER_MATRIX : large ? 3 : 4;
     for (long s = 0; s < nsol && done < nsolves; ++s, ++done) {
       long combo = (shard * 5 + mi * nsol + s) % 24;
       Cfg c = late ? gen_cfg_late(rm, m.n) : gen_cfg(rm, combo, m.n, ham);
@@ -745,6 +753,12 @@ int main(int argc, char **argv) {
   vfh::Reporter R;
   R.max_samples = 3;
   std::string mode = A.str("mode", "random");
+  // generator parameters of the late_root family (defaults = what the check uses; see the rule in c09.py)
+  LATE_SIGMA_MIN = A.real("late-sigma-lo", LATE_SIGMA_MIN); LATE_SIGMA_MAX = A.real("late-sigma-hi", LATE_SIGMA_MAX);
+  LATE_PAIR_MIN = A.real("late-pair-lo", LATE_PAIR_MIN); LATE_PAIR_MAX = A.real("late-pair-hi", LATE_PAIR_MAX);
+  LATE_PAIR_LOW_SHARE = A.real("late-pair-low-share", LATE_PAIR_LOW_SHARE);
+  LATE_TIGHT_SHARE = A.real("late-tight", LATE_TIGHT_SHARE); LATE_LOOSE_SHARE = A.real("late-loose", LATE_LOOSE_SHARE);
+  LATE_SOLVES_PER_MATRIX = A.num("late-solves-per-matrix", LATE_SOLVES_PER_MATRIX);
   if (mode == "adversarial") run_adversarial(R);
   else run_random(R, A.num("seed", 1), A.num("shard", 0), A.num("n", 20), A.str("sizes", "small") == "large", A.has("only") ? A.num("only", 0) : -1, A.str("sizes", "small") == "late");
   R.summary();
